@@ -542,3 +542,19 @@ Definition span_record (cs : N) (names : list bytes) (op : recop) : option (list
       end
   | RValueSet es => vs_record cs es
   end.
+
+(** `record_all!(span, fields..)`: `valueset!(meta.fields(), fields..)` on the span's own FieldSet — values are
+    paired with the span's fields by POSITION (the names written in the macro call are not consulted). *)
+Definition record_all_macro (cs : N) (names : list bytes) (f : fields) : option (list visit) :=
+  match valueset_expand f with
+  | Some vals =>
+      match pair_up cs 0 names vals with
+      | Some es => vs_record cs es
+      | None => None
+      end
+  | None => None
+  end.
+
+(** `enabled!(.., fields)`: only `fieldset!` (names); the answer is the guard and then the collector's `enabled`. *)
+Definition run_enabled (f : fields) (lvl : N) (c : collector) : option (list bytes * bool) :=
+  option_map (fun names => (names, guard c lvl && c_enabled c)) (fieldset_expand f).
